@@ -16,7 +16,7 @@ ASSUMPTIONS = ["fault vocabulary = the causes the statement names (unmatched pat
                "FakeRepo stands in for git"]
 COMPONENTS = {"bumpver cli update [--dry], rewrite, v1/v2rewrite": "real", "files": "real scratch directory (faults applied to it)",
               "VCS": "none or FakeRepo", "clock": "simulated"}
-CAMPAIGNS = [FaultPos("C06", quick=220, thorough=8000), DryReal("C06", quick=1500, thorough=60000)]
+CAMPAIGNS = [FaultPos("C06", quick=220, thorough=8000), DryReal("C06", quick=6000, thorough=150000)]
 
 
 def sanity_gate(tier, total):
